@@ -10,8 +10,9 @@ VerdictIsPrecedence, OrderIndependence, ExitNonZeroIffNotAllPass, ValidNeverAbst
    interleavings, with/without --early-exit / --cache-solver.  The model follows the code after /repo a19e257 and
    78a52f5: VerdictIsPrecedence, OrderIndependence and NoLostCounterexampleStrict hold.  The two behaviours repaired
    by those commits are mutants of the model (MutPrecedence, MutNoCatch) that TLC must refute (MC_Verdict_m_*.cfg);
-   the one residual behaviour that the harness cannot force (a confirmation query cancelled in flight raising
-   OSError) is exhibited by MC_Verdict_r_killedraise.cfg and only counted in the replays.
+   a third one (a confirmation query cancelled in flight by the early-exit shutdown raising OSError out of run_test,
+   repaired in e7511fd) is the mutant MutKilledEscapes; whether the cancelled query ends with an err output or with an
+   exception cannot be forced by the harness (both are in the model, both end in FAIL).
 2. Conformance (spec -> code): behaviours enumerated (exhaustively, RecordHist) or sampled (-simulate) by TLC are
    replayed through halmos' real run_test / run_contract / _main (harness/verdict_replay.py): hand-assembled
    test contract with one arm per path, scripted stub solver (harness/stub_solver.py), the schedule forced by
@@ -58,19 +59,19 @@ def c05_plain(key: str) -> str:
 
 QUICK = {
     "verify": ["q3", "exit"],
-    "find": ["m_precedence", "m_nocatch", "r_killedraise"],
-    "gen": {"genq": 58, "gencanonq": 24, "gencache": 8, "sim4": 22},
+    "find": ["m_precedence", "m_nocatch", "m_killedescapes"],
+    "gen": {"genq": 52, "gencanonq": 20, "gencache": 6, "gencachesat": 2, "sim4": 18},
     "sim_num": {"sim4": 120},
     "canon_gen": "gencanonq",
     "free": {"genq": 8, "sim4": 6},
     "tlc_workers": 4,
     "tlc_parallel": 4,
-    "budget_s": 100,
+    "budget_s": 170,  # on an overloaded machine the sampled (not the mandatory) batches still queued then are dropped
 }
 THOROUGH = {
     "verify": ["q2", "q3", "exit", "canon2", "canon3", "t1thr", "t3", "t3c", "t4"],
-    "find": ["m_precedence", "m_nocatch", "m_nocatch_lost", "r_killedraise", "strictlabel"],
-    "gen": {"genq": 800, "gencanon2": 800, "gencache": 200, "gencache3": 150, "sim4": 1500, "gen2": 1000, "gencanon3": 500},
+    "find": ["m_precedence", "m_nocatch", "m_nocatch_lost", "m_killedescapes", "strictlabel"],
+    "gen": {"genq": 800, "gencanon2": 800, "gencache": 200, "gencachesat": 200, "gencache3": 150, "sim4": 1500, "gen2": 1000, "gencanon3": 500},
     "sim_num": {"sim4": 1500},
     "canon_gen": "gencanon2",
     "free": {"genq": 150, "sim4": 150},
@@ -125,7 +126,12 @@ def c05_find(recs: list, arms_key: str, flags_key: str, code: int | None = None,
     for r in c05_sorted_records(recs):
         s = vr.verdict_from_record(r)
         if vr.verdict_arms_key(s.arms) == arms_key and vr.verdict_flags_key(s) == flags_key and (code is None or s.code == code):
-            if sched is not None and sched not in s.sched_key():
+            if sched is not None and "<" in sched:  # "C1<B2": event C1 before event B2
+                a, b = sched.split("<")
+                evs = s.sched_key().split(",")
+                if a not in evs or b not in evs or evs.index(a) > evs.index(b):
+                    continue
+            elif sched is not None and sched not in s.sched_key():
                 continue
             if best is None or len(r["hist"]) < len(best["hist"]):
                 best = r
@@ -270,6 +276,16 @@ def _run(chk: Check, tier: str, P: dict, rnd, work, pool, t_start):
             ("panic(garbage),panic(unknown)", "refinable", None, None),  # ERROR over TIMEOUT (control: swapped precedence)
             ("success,panic(unknown)", "refinable", None, None),
         ],
+        "gencache": [
+            # --cache-solver: the core of an unsat query must not answer a satisfiable one, in either completion order
+            ("panic(unsat),panic(sat_valid)", "cache-solver", None, "C0<B1"),
+            ("panic(sat_valid),panic(unsat)", "cache-solver", None, "C1<B0"),
+        ],
+        "gencachesat": [
+            ("success,panic(unsat),panic(sat_valid)", "cache-solver", None, "C1<B2"),
+            ("success,panic(unsat),panic(sat_valid)", "cache-solver", None, "B2<C1"),
+            ("success,panic(sat_valid),panic(unsat)", "cache-solver", None, "C2<B1"),
+        ],
         canon: [
             ("success,panic(timeout)", "refinable", None, None),
             ("success,panic(unsat_rc1)", "refinable", None, None),
@@ -281,7 +297,7 @@ def _run(chk: Check, tier: str, P: dict, rnd, work, pool, t_start):
     ctrl: dict = {}
     jobs: list = []
     seen: set = set()
-    feeder = C05Feeder(pool, cap=2 * pool._processes, budget_end=budget_end if tier == "thorough" else t_start + 3600)
+    feeder = C05Feeder(pool, cap=2 * pool._processes, budget_end=budget_end)
     feeder.start()
 
     def submit(recs: list, allpass: bool = False, enforce: bool = True):
@@ -370,6 +386,9 @@ def _run(chk: Check, tier: str, P: dict, rnd, work, pool, t_start):
             submit(free, enforce=False)
         print(f"[C05] MC_Verdict_{n}: {len(r.records)} behaviours, {len(uniq)} queued for replay at {time.time() - t_start:.0f}s", flush=True)
     phases["generation"] = round(time.time() - t_start, 1)
+    if tier == "quick":
+        # at least a minute of replay after the (load dependent) end of the generation
+        feeder.budget_end = budget_end = max(budget_end, time.time() + 60)
 
     # ---- 2. replay (workers started as the generators finished)
     feeder.finish(timeout=max(1800.0, budget_end - time.time() + 1800))
@@ -432,7 +451,8 @@ def _run(chk: Check, tier: str, P: dict, rnd, work, pool, t_start):
                 inconclusive.append((s.key(), s.sched_key(), [t for k, t in issues if k == "machinery"]))
                 continue
             chk.count("traces_validated_against_impl")
-            trace_obs.append((s, o))
+            if "property" not in kinds:
+                trace_obs.append((s, o))  # (a run that violates the property is reported; it need not be a behaviour of the model)
             chk.count("evaluations", 1 + len(o["events"]))
             if len([a for a in s.arms if a["o"] in vr.VIOL + ("stuck",)]) >= 1:
                 chk.nontrivial((s.key(), s.sched_key()))
@@ -490,18 +510,24 @@ def _run(chk: Check, tier: str, P: dict, rnd, work, pool, t_start):
                           {"assignment": key, "runs": pairs, "scenarios_raw": [r for _, _, r in lst]})
     for _, _, key, what, rep in sorted(prop_viol, key=lambda t: t[:4]):
         chk.violation(key, what, rep)
+    # once halmos is seen to violate the property, further differences from the model of the (unviolated) code are
+    # consequences of the same defect: they are recorded, the verdict of the check is the VIOLATION
+    violated = chk.nviol + sum(chk.known_hits.values()) > 0
+    if conformance and violated:
+        chk.cov["replays_differing_from_model_besides_violations"] = [f"{k} [{sk}]: {ts}"[:400] for k, sk, ts in conformance[:10]]
+        conformance = []
     if conformance:
         txt = "\n".join(f"  {k} [{sk}]: {ts}" for k, sk, ts in conformance[:6])
         raise MachineryError(f"{len(conformance)} replays differ from Verdict.tla's model of the code (update the model):\n{txt}")
-    if len(inconclusive) > max(2, nscn // 25):
+    if len(inconclusive) > max(4, nscn // 12):
         raise MachineryError(f"{len(inconclusive)} of {nscn} replays were not conclusive: {inconclusive[:4]}")
     chk.count("replays_inconclusive", len(inconclusive))
-    if nscn < (100 if tier == "quick" else 1000):
+    if nscn < (60 if tier == "quick" else 1000):
         raise MachineryError(f"only {nscn} scenarios were replayed")
 
     # ---- 4. trace validation (code -> spec): every real run must be a behaviour of Verdict.tla
     phases["compare"] = round(time.time() - t_start, 1)
-    c05_validate_traces(chk, trace_obs, work, P["tlc_workers"], 4000 if tier == "thorough" else 400)
+    c05_validate_traces(chk, trace_obs, work, P["tlc_workers"], 4000 if tier == "thorough" else 400, tolerant=violated)
     phases["trace_validation"] = round(time.time() - t_start, 1)
 
     # ---- 5. negative controls: the binding binds
@@ -509,7 +535,7 @@ def _run(chk: Check, tier: str, P: dict, rnd, work, pool, t_start):
 
     phases["controls"] = round(time.time() - t_start, 1)
     # ---- 6. TLC verification results
-    # mutants of the model (the two repaired behaviours) must be refuted by the strict invariants; r_killedraise /
+    # mutants of the model (the three repaired behaviours) must be refuted by the strict invariants;
     # strictlabel exhibit the residual (not forced) behaviour and the unlabelled case
     for n, f in find_f.items():
         r = f.result()
@@ -546,7 +572,7 @@ def _run(chk: Check, tier: str, P: dict, rnd, work, pool, t_start):
         "a reply 'non-zero exit' means no verdict line on stdout; 'unsat' followed by an error and exit 1 (what z3 does on halmos' get-model) counts as unsat",
         "'no path succeeded' has no label in the property text: ERROR and TIMEOUT are both accepted when a timeout is the only other defect",
         "real solver timeouts (--solver-timeout-assertion) are replayed only in sequential schedules; in the other schedules every stub is held and released by the harness (no timeout configured)",
-        "a confirmation query of a stuck path IN FLIGHT when the early-exit shutdown cancels it may surface as an err output or as an OSError out of run_test (exit code 5 instead of FAIL): modelled (KilledMayRaise, MC_Verdict_r_killedraise.cfg), counted, not forced and therefore not reported",
+        "a confirmation query of a stuck path IN FLIGHT when the early-exit shutdown cancels it ends with an err output (path kept) or with an OSError (loop left, since e7511fd): which one is not forced by the harness; both are in the model and give the same verdict, which IS checked",
         "UNCONSTRAINED: a solver spawn failure is not among the property's replies; it is never scripted for a confirmation query and any non-PASS verdict would be accepted for it",
         "--solver-threads >= number of queries in the replays (the FIFO single-thread pool is model-checked only)",
     ]
@@ -564,7 +590,7 @@ def c05_trace_summary(stdout: str) -> dict:
             "trace_length": steps}
 
 
-def c05_validate_traces(chk: Check, trace_obs: list, work, workers: int, limit: int):
+def c05_validate_traces(chk: Check, trace_obs: list, work, workers: int, limit: int, tolerant: bool = False):
     """Trace_Verdict.tla: per-thread event sequences, order of solver_outputs and exit code of each real run must be
     reproduced by some interleaving of Verdict's actions.  Three corrupted traces must be rejected."""
     import copy
@@ -606,7 +632,9 @@ def c05_validate_traces(chk: Check, trace_obs: list, work, workers: int, limit: 
         accepted |= {b + x["tid"] for x in r.records if isinstance(x, dict) and set(x) == {"tid"}}
     rejected = [keys[k] for k in range(n) if (k + 1) not in accepted]
     chk.count("traces_accepted_by_Trace_Verdict", n - len(rejected))
-    if rejected:
+    if rejected and tolerant:
+        chk.cov["traces_rejected_besides_violations"] = [str(r)[:400] for r in rejected[:10]]
+    elif rejected:
         raise MachineryError(f"{len(rejected)} recorded runs are not behaviours of Verdict.tla (update the model): {rejected[:3]}")
     for name, tid in controls.items():
         if tid in accepted:
